@@ -24,6 +24,14 @@ def main():
     from vlib import ch
     from checks import leafharness
 
+    # group numbers are per compilation: two rules that register the same capture names in different orders
+    seq_items = [
+        ("a_then_b", {"pattern": [{"mov": ["&genreg-a.64", "&genreg-b.64"]}, {"push": ["&genreg-a.64"]}, {"push": ["&genreg-b.64"]}]}, None),
+        ("b_then_a", {"pattern": [{"mov": ["&genreg-b.64", "&genreg-a.64"]}, {"push": ["&genreg-a.64"]}, {"push": ["&genreg-b.64"]}]}, None),
+        ("operands_xy", {"pattern": [{"mov": ["&x", "&y"]}, {"push": ["&y"]}, "&i", "&i"]}, None),
+        ("operands_yx", {"pattern": [{"mov": ["&y", "&x"]}, "&i", {"push": ["&y"]}, "&i"]}, None),
+    ]
+    lemmas.sequence_invariance(run, seq_items, "capture_numbering")
     hs = leafharness.c05_leaves(tier())
     ch.run_harnesses(run, hs)
     envs = sum(max(1, len([o for o in r["obl"] if o["lemma"] == "AEM"]) // 2) for r in results)
